@@ -38,9 +38,27 @@ def harvest_constants(repo, c: api.Contract):
     return sorted(strs), sorted(ints)
 
 
+def harvest_node_kinds(repo, c: api.Contract):
+    """Strings the module of the function under proof compares with a `.type` attribute (parse-tree node kinds):
+    generated trees draw their node types from these (plus one filler), which makes small interesting trees likely."""
+    kinds = set()
+    try:
+        tree = repo.lookup(c.target).module.tree
+    except Exception:  # noqa
+        return []
+    for n in ast.walk(tree):
+        if isinstance(n, ast.Compare) and any(isinstance(x, ast.Attribute) and x.attr == "type" for x in [n.left] + n.comparators):
+            for x in [n.left] + n.comparators:
+                for k in ast.walk(x):
+                    if isinstance(k, ast.Constant) and isinstance(k.value, str):
+                        kinds.add(k.value)
+    return sorted(kinds) + ["other"] if kinds else []
+
+
 class Gen:
-    def __init__(self, rng, strs, ints):
+    def __init__(self, rng, strs, ints, kinds=None):
         self.rng, self.strs, self.ints = rng, strs, ints
+        self.kinds = kinds or None
         self.nid = 0
 
     def s(self):
@@ -69,12 +87,13 @@ class Gen:
 
     def node(self, ty, depth=0, kinds=None):
         self.nid += 1
-        kinds = kinds or self.strs
+        my = self.nid  # fixed before the children are generated: a parent must not share its key with a descendant
+        kinds = kinds or self.kinds or self.strs
         kids = [] if depth >= 3 else [self.node(ty, depth + 1, kinds) for _ in range(self.rng.choice([0, 0, 1, 2, 3]))]
-        return {"__node__": f"n{self.nid}", "type": self.rng.choice(kinds), "children": kids,
+        return {"__node__": f"n{my}", "type": self.rng.choice(kinds), "children": kids,
                 "text": self.rng.choice([None, self.s(), self.s()]) if "text" in ty.attrs else None,
                 "start_point": (self.rng.randrange(5), self.rng.randrange(9)), "end_point": (self.rng.randrange(5, 9), 0),
-                "id": self.nid}
+                "id": my}
 
     def value(self, ty: Ty, depth=0):
         if getattr(ty, "native_gen", None) is not None:
@@ -207,7 +226,7 @@ def search_witness(repo, c: api.Contract, seed, n=400):
     import inspect
     rng = random.Random(seed)
     strs, ints = harvest_constants(repo, c)
-    g = Gen(rng, strs, ints)
+    g = Gen(rng, strs, ints, kinds=harvest_node_kinds(repo, c))
     orig_build = native.build_value
 
     def patched(ty, mv, memo=None):
